@@ -88,7 +88,7 @@ fn one_case(ctx: &WorkerCtx, rep: &mut WorkerReport, case_seed: u64, boundary: b
     let mut uniq = 0u64;
     for i in 0..pairs {
         uniq += 1;
-        let pick = if base > 0 && (bed.d.next_height() == act || rng.chance(1, 2)) { 14 } else { rng.below(20) };
+        let pick = if base > 0 && (bed.d.next_height() == act || rng.chance(1, 2)) { 14 } else { rng.below(21) };
         let (name, to, data): (&str, Option<String>, Vec<u8>) = match pick {
             // a precompile that exists from Prague on (BLS12-381 G1ADD of two points at infinity):
             // the answer tells which rule set ran the code
@@ -100,6 +100,12 @@ fn one_case(ctx: &WorkerCtx, rep: &mut WorkerReport, case_seed: u64, boundary: b
                 let mut v = vec![0x60, 0x01, 0x60, 0x00, 0xf3];
                 v.resize(49153, 0);
                 v
+            }),
+            // call data beyond 1 MiB to a target whose answer depends on every byte of it (SHA-256 precompile)
+            20 => ("sha256-of-huge-calldata", Some("0x0000000000000000000000000000000000000002".to_string()), {
+                let n = 1_048_577 + rng.below(4096) as usize;
+                let seedb = rng.bytes(64);
+                seedb.iter().cycle().take(n).cloned().collect()
             }),
             // every environment word the statement does not exclude (block gas limit, coinbase, fees, chain id, ...)
             18 => ("env-words", Some(envdump.clone()), vec![]),
@@ -191,7 +197,7 @@ fn one_case(ctx: &WorkerCtx, rep: &mut WorkerReport, case_seed: u64, boundary: b
                     json!({"case_seed": case_seed, "network": net, "program": name, "signed": signed, "eth_call": sim_out, "executed": out, "receipt": rc}));
                 break;
             }
-            if ["inc", "cond", "sstore-old", "create-child", "create2-child", "nested-inc", "batch", "sload", "number-blockhash", "env-words"].contains(&name) {
+            if ["inc", "cond", "sstore-old", "create-child", "create2-child", "nested-inc", "batch", "sload", "number-blockhash", "env-words", "sha256-of-huge-calldata"].contains(&name) {
                 rep.nontrivial(format!("{}:{}:{}", name, signed, &out[out.len().saturating_sub(6)..]));
             }
             if name == "rule-set-probe" {
